@@ -14,6 +14,7 @@ from copy import deepcopy
 from typing import TYPE_CHECKING
 
 from pyxel.pipelines import ModelFunction
+from pyxel.util import _verif
 
 if TYPE_CHECKING:
     from pyxel.detectors import Detector
@@ -86,9 +87,18 @@ class ModelGroup:
         model: ModelFunction
         for model in self:
             self._log.info("Model: %r", model.name)
+            if _verif.ENABLED:
+                _verif.emit("model_begin", group=self._name, model=model.name)
             try:
                 model(detector)
             except Exception as exc:
+                if _verif.ENABLED:
+                    _verif.emit(
+                        "model_error",
+                        group=self._name,
+                        model=model.name,
+                        exc=type(exc).__name__,
+                    )
                 if sys.version_info >= (3, 11):
                     note = (
                         f"This error is raised in group '{self._name}' at "
@@ -97,6 +107,14 @@ class ModelGroup:
                     exc.add_note(note)
 
                 raise
+
+            if _verif.ENABLED:
+                _verif.emit(
+                    "model_end",
+                    group=self._name,
+                    model=model.name,
+                    buckets=_verif.bucket_digests(detector),
+                )
 
             # TODO: Refactor
             if debug:
